@@ -1193,6 +1193,48 @@ def unit_reuse(ctx):
         _do_pad(ctx, geo, mesh, field, widths, {dims[ax]: (1, 2)}, mode, dims)
 
 
+NONFINITE = {"nan": float("nan"), "+inf": float("inf"), "-inf": float("-inf"), "numpy-nan": np.float64("nan"),
+             "numpy-float32-nan": np.float32("nan")}
+
+
+def unit_nonfinite(ctx):
+    """A coordinate that is not a number, or infinite, is not in the region: a plane request at it, a range with it as
+    one bound (the other bound inside), and a region box with such a corner must be rejected, and source mesh and field
+    stay untouched."""
+    nd = ctx.choose("ndim", [3, 2, 1])
+    ax = ctx.choose("axis", list(range(nd)))
+    what = ctx.choose("request", ["plane", "range-lower", "range-upper", "range-both"])
+    bad = ctx.choose("value", list(NONFINITE))
+    scale = ctx.choose("scale", [1.0, 1e-9])
+    if nd == 1 and what == "plane":
+        raise Skip()  # plane selection on the only axis is judged by plane1d
+    n = [4, 3, 2][:nd]
+    pmin = [-1.0 * scale, 0.5 * scale, 2.0 * scale][:nd]
+    cell = [0.5 * scale, 1.0 * scale, 0.25 * scale][:nd]
+    pmax = [a + c * k for a, c, k in zip(pmin, cell, n)]
+    mesh = df.Mesh(region=df.Region(p1=tuple(pmin), p2=tuple(pmax)), n=n)
+    field = df.Field(mesh, nvdim=2, value=C.tracer(n, 2, ctx.seed), valid=C.coded_mask(tuple(n), 2))
+    dim = mesh.region.dims[ax]
+    v = NONFINITE[bad]
+    inside = pmin[ax] + 1.25 * cell[ax]
+    arg = {"plane": v, "range-lower": (v, inside), "range-upper": (inside, v), "range-both": (v, v)}[what]
+    for site, obj in (("Field.sel", field), ("Mesh.sel", mesh)):
+        before = C.snap(obj)
+        ctx.step(1, f"{site}({dim}={arg!r})")
+        with np.errstate(all="ignore"):
+            raised, res = C.raises(obj.sel, **{dim: arg})
+        ctx.check()
+        ctx.observe(site, raised, type(res).__name__)
+        if not raised:
+            rm = res if isinstance(res, df.Mesh) else getattr(res, "mesh", None)
+            ctx.fail(f"{site}/accepted-non-finite-request/{'plane' if what == 'plane' else 'range'}",
+                     f"{dim}={arg!r} returned {type(res).__name__}" + (f" with n={rm.n.tolist()}" if rm is not None else ""),
+                     instance=ctx.key(drop=("scale",)))
+        ctx.check()
+        if C.snap(obj) != before:
+            ctx.fail(f"{site}/source-modified", f"{dim}={arg!r}: the source changed", instance=ctx.key(drop=("scale",)))
+
+
 def units(tier):
     return [
         {"name": "box1", "fn": unit_box1, "bound": None},
@@ -1202,6 +1244,7 @@ def units(tier):
         {"name": "plane", "fn": unit_plane, "bound": None},
         {"name": "plane1d", "fn": unit_plane1d, "bound": None},
         {"name": "int_region", "fn": unit_int_region, "bound": None},
+        {"name": "nonfinite", "fn": unit_nonfinite, "bound": None},
         {"name": "reuse", "fn": unit_reuse, "bound": None},
         {"name": "name", "fn": unit_name, "bound": None},
         {"name": "pad", "fn": unit_pad, "bound": None},
